@@ -47,27 +47,27 @@ var stdAssumptions = []string{
 }
 
 var props = map[string]propInfo{
-	"C01": {Engine: "bgp", Quick: 1500, Thorough: 60000, BatchSize: 50},
-	"C02": {Engine: "bgp", Quick: 20000, Thorough: 600000, BatchSize: 500},
-	"C04": {Engine: "bgp", Quick: 8000, Thorough: 300000, BatchSize: 250},
-	"C05": {Engine: "bgp", Quick: 1500, Thorough: 40000},
-	"C06": {Engine: "bgp", Quick: 1500, Thorough: 40000},
-	"C07": {Engine: "bgp", Quick: 1200, Thorough: 30000},
-	"C08": {Engine: "bgp", Quick: 1500, Thorough: 40000},
-	"C09": {Engine: "bgp", Quick: 1500, Thorough: 40000},
-	"C10": {Engine: "bgp", Quick: 1500, Thorough: 40000},
-	"C11": {Engine: "bgp", Quick: 1500, Thorough: 40000},
-	"C12": {Engine: "bgp", Quick: 1200, Thorough: 30000},
-	"C13": {Engine: "bgp", Quick: 1200, Thorough: 30000},
-	"C18": {Engine: "bgp", Quick: 400, Thorough: 10000, BatchSize: 10, PerRunTimeout: 120 * time.Second},
-	"C19": {Engine: "bgp", Quick: 1200, Thorough: 30000},
-	"C21": {Engine: "bgp", Quick: 800, Thorough: 20000},
-	"C22": {Engine: "bgp", Quick: 500, Thorough: 10000, BatchSize: 20},
-	"C23": {Engine: "bgp", Quick: 1200, Thorough: 30000},
-	"C24": {Engine: "bgp", Quick: 1500, Thorough: 40000},
-	"C25": {Engine: "bgp", Quick: 1500, Thorough: 40000},
-	"C29": {Engine: "bgp", Quick: 10000, Thorough: 300000, BatchSize: 250},
-	"C20": {Engine: "bgp", Quick: 1500, Thorough: 40000},
+	"C01": {Engine: "bgp", Quick: 4000, Thorough: 150000, BatchSize: 50},
+	"C02": {Engine: "bgp", Quick: 60000, Thorough: 2000000, BatchSize: 1000},
+	"C04": {Engine: "bgp", Quick: 40000, Thorough: 1500000, BatchSize: 500},
+	"C05": {Engine: "bgp", Quick: 5000, Thorough: 150000},
+	"C06": {Engine: "bgp", Quick: 5000, Thorough: 150000},
+	"C07": {Engine: "bgp", Quick: 3000, Thorough: 90000},
+	"C08": {Engine: "bgp", Quick: 5000, Thorough: 150000},
+	"C09": {Engine: "bgp", Quick: 5000, Thorough: 150000},
+	"C10": {Engine: "bgp", Quick: 6000, Thorough: 180000},
+	"C11": {Engine: "bgp", Quick: 4000, Thorough: 120000},
+	"C12": {Engine: "bgp", Quick: 4000, Thorough: 120000},
+	"C13": {Engine: "bgp", Quick: 5000, Thorough: 150000},
+	"C18": {Engine: "bgp", Quick: 600, Thorough: 20000, BatchSize: 10, PerRunTimeout: 120 * time.Second},
+	"C19": {Engine: "bgp", Quick: 5000, Thorough: 150000},
+	"C20": {Engine: "bgp", Quick: 5000, Thorough: 150000},
+	"C21": {Engine: "bgp", Quick: 1500, Thorough: 45000},
+	"C22": {Engine: "bgp", Quick: 1200, Thorough: 36000, BatchSize: 20},
+	"C23": {Engine: "bgp", Quick: 8000, Thorough: 240000},
+	"C24": {Engine: "bgp", Quick: 6000, Thorough: 180000},
+	"C25": {Engine: "bgp", Quick: 6000, Thorough: 180000},
+	"C29": {Engine: "bgp", Quick: 40000, Thorough: 1200000, BatchSize: 500},
 }
 
 type violation struct {
